@@ -549,55 +549,72 @@ func (w *world20) witGoods() []witBreak {
 
 // one state: write the directories, compute the facts independently, ask /health
 func (w *world20) state(tag string, mutLog func(i int, l *logSpec, now int64), mutWit func(i int, ws *witSpec)) (int, []string, []logF, []witF, int64) {
-	now := time.Now().UnixMilli()
-	for i, dir := range w.logDirs {
-		l := w.goodLog(i, now)
-		if mutLog != nil {
-			mutLog(i, l, now)
-		}
-		l.write(dir)
-	}
-	for i, dir := range w.witDirs {
-		ws := w.goodWit(i)
-		if mutWit != nil {
-			mutWit(i, ws)
-		}
-		ws.write(w.r, dir)
-	}
-	var lf []logF
-	var wf []witF
-	emit("hreset|=>|ok")
-	for i, dir := range w.logDirs {
-		f := logFacts(dir)
-		lf = append(lf, f)
-		emit("%s", f.line(w.shorts[i], w.staging[i]))
-	}
-	for i, dir := range w.witDirs {
-		for _, m := range []bool{false, true} {
-			root := dir
-			if m {
-				root = filepath.Join(dir, "mirror")
+	for attempt := 0; ; attempt++ {
+		// witnesses first (their checks do not depend on time) ...
+		for i, dir := range w.witDirs {
+			ws := w.goodWit(i)
+			if mutWit != nil {
+				mutWit(i, ws)
 			}
-			f := witFacts(root, m, w.wstaging[i], dir)
-			wf = append(wf, f)
-			for _, l := range f.lines() {
-				emit("%s", l)
+			ws.write(w.r, dir)
+		}
+		var lf []logF
+		var wf []witF
+		var buf []string
+		for i, dir := range w.witDirs {
+			for _, m := range []bool{false, true} {
+				root := dir
+				if m {
+					root = filepath.Join(dir, "mirror")
+				}
+				f := witFacts(root, m, w.wstaging[i], dir)
+				wf = append(wf, f)
+				buf = append(buf, f.lines()...)
 			}
 		}
+		// ... then the logs, signed relative to a clock read immediately before the request
+		now := time.Now().UnixMilli()
+		var lbuf []string
+		for i, dir := range w.logDirs {
+			l := w.goodLog(i, now)
+			if mutLog != nil {
+				mutLog(i, l, now)
+			}
+			l.write(dir)
+			f := logFacts(dir)
+			lf = append(lf, f)
+			lbuf = append(lbuf, f.line(w.shorts[i], w.staging[i]))
+		}
+		t0 := time.Now().UnixMilli()
+		resp := w.s.get("health.example.org", "/health")
+		t1 := time.Now().UnixMilli()
+		at := (t0 + t1) / 2
+		// the decision must not depend on where between t0 and t1 skylight read its clock
+		conclusive := t1-now < 800
+		near := func(x, limit, margin int64) bool { return x > limit-margin && x < limit+margin }
+		for _, f := range lf {
+			if f.tso && near(at-f.ts, 5000, 500) || f.lo && near(at-f.lim, week3s, 60000) {
+				conclusive = false
+			}
+		}
+		if !conclusive && attempt < 5 {
+			w.stats["timing-retry"]++
+			continue
+		}
+		emit("hreset|=>|ok")
+		for _, l := range append(lbuf, buf...) {
+			emit("%s", l)
+		}
+		if resp.err != nil {
+			emit("health|%d|=>|error:%v", at, resp.err)
+			return 0, nil, lf, wf, at
+		}
+		lines := canonBody(string(resp.body), w.shorts)
+		emit("health|%d|=>|%d|%s", at, resp.status, strings.Join(lines, ";"))
+		w.stats[tag]++
+		w.monitors(tag, resp.status, lines, lf, wf, at)
+		return resp.status, lines, lf, wf, at
 	}
-	t0 := time.Now().UnixMilli()
-	resp := w.s.get("health.example.org", "/health")
-	t1 := time.Now().UnixMilli()
-	at := (t0 + t1) / 2
-	if resp.err != nil {
-		emit("health|%d|=>|error:%v", at, resp.err)
-		return 0, nil, lf, wf, at
-	}
-	lines := canonBody(string(resp.body), w.shorts)
-	emit("health|%d|=>|%d|%s", at, resp.status, strings.Join(lines, ";"))
-	w.stats[tag]++
-	w.monitors(tag, resp.status, lines, lf, wf, at)
-	return resp.status, lines, lf, wf, at
 }
 
 // monitors on the implementation alone: the property itself, stated over the independently
@@ -700,6 +717,44 @@ func runC20(r *mrand.Rand, bin, scratch string, n int) {
 	defer w.s.stop()
 
 	lb, lg, wg := w.logBreaks(), w.logGoods(), w.witGoods()
+	if replayLines != nil {
+		// re-create the states named by the tags of the replay file's monitor lines
+		for _, f := range replayLines {
+			if len(f) < 2 || !strings.HasPrefix(f[0], "mon_health") {
+				continue
+			}
+			tag := f[1]
+			_, names, _ := strings.Cut(tag, ":")
+			var lbs []logBreak
+			var wbs []witBreak
+			for _, n := range strings.Split(names, "+") {
+				for _, b := range append(append([]logBreak{}, lb...), lg...) {
+					if b.name == n {
+						lbs = append(lbs, b)
+					}
+				}
+				for _, b := range append(w.witBreaks(0), wg...) {
+					if b.name == n {
+						wbs = append(wbs, b)
+					}
+				}
+			}
+			w.state(tag, func(i int, l *logSpec, now int64) {
+				if i == 0 {
+					for _, b := range lbs {
+						b.f(l, now)
+					}
+				}
+			}, func(i int, ws *witSpec) {
+				if i == 0 {
+					for _, b := range wbs {
+						b.f(ws, &ws.dirs[0])
+					}
+				}
+			})
+		}
+		return
+	}
 	// all good, a few times, with the green variations
 	for k := 0; k < 3; k++ {
 		w.state("all-good", nil, nil)
@@ -796,5 +851,5 @@ func runC20(r *mrand.Rand, bin, scratch string, n int) {
 	for _, k := range ks {
 		tot[strings.SplitN(k, ":", 2)[0]] += w.stats[k]
 	}
-	emit("# states all-good=%d good-variants=%d single=%d multi=%d", tot["all-good"], tot["good"], tot["single"], tot["multi"])
+	emit("# states all-good=%d good-variants=%d single=%d multi=%d timing-retries=%d", tot["all-good"], tot["good"], tot["single"], tot["multi"], w.stats["timing-retry"])
 }
